@@ -243,7 +243,8 @@ impl<'i> SmlParseTlf<'i> for List<'i> {
     }
 
     fn parse_with_tlf(mut input: &'i [u8], tlf: &TypeLengthField) -> ResTy<'i, Self> {
-        let mut v = Vec::with_capacity(tlf.len as usize);
+        // every list entry takes at least one byte of input, so never reserve more than that
+        let mut v = Vec::with_capacity((tlf.len as usize).min(input.len()));
         for _ in 0..tlf.len {
             let (new_input, x) = ListEntry::parse(input)?;
             v.push(x);
